@@ -4,8 +4,8 @@ import hirq, anchors, absx, sem, driver
 
 EXPLANATION = ("L1 reply senders are owned only by the driver's two routing maps, the request tuple and the LdapOp::Search payload; the "
                "driver loop takes the driver by value, so every exit drops them; no mem::forget / ManuallyDrop / Box::leak / into_raw in "
-               "the workspace; L2 in the driver loop the closed-channel / end-of-stream alternative of the request, misc and response "
-               "arms leaves the loop, a stream error and a failed socket write return Err, and an arm awaits nothing but the driver's own transport (never a channel send, lock or timer whose completion is up to a consumer); L3 on the caller side every send / recv / await "
+               "the workspace; L2 / L11 what the select! of the driver loop does with the answer that says a source has ended - None from the request / misc channel, None from the transport's stream - is read off the macro's expansion (the branch's piece of the poll closure interpreted with the future's answer fixed to that value): it is handed to the arm (a refutable branch pattern that does not match None makes the macro swallow it: the branch is only switched off for that call and `else` runs only when every branch is), and every path of the arm's handler on it leaves the loop; "
+               "a stream error (Some(Err)) is handed to the response arm and every path on it returns Err, as does every path of the request arm on which the socket write failed, and an arm awaits nothing but the driver's own transport (never a channel send, lock or timer whose completion is up to a consumer); L3 on the caller side every send / recv / await "
                "on a channel is propagated with `?`, matched into an Err return or (finish only) logged - never unwrapped, never retried (the stream's stepping functions are evaluated from the values of the stream state "
                "in which their one referencing shim reaches the call, so a branch on an excluded state is not an answer to a closed channel); "
                "L4 the request send (with `?`) precedes every await in the operation issue point; L5 the Unbind arm shuts the socket down "
@@ -110,35 +110,40 @@ def run(ctx):
         if n['k'] == 'Loop' and any(x is C.arms['request']['match'] for x, _ in walk(n)):
             main_loop = n
             break
-    def leaves_loop(e):
-        if e is None:
-            return False
-        for n, c in walk(e):
-            if n['k'] == 'Ret':
-                return hirq.diverges(e)
-            if n['k'] == 'Break' and n.get('target') == main_loop.get('id'):
-                return hirq.diverges(e)
-        return False
+    # What becomes of the answer that tells the driver "this source has ended" - None from the request / misc channel (every handle
+    # dropped), None from the transport's stream (the server closed the connection).  Decided on what the select! does with that
+    # very answer (driver.select_answer: the branch's piece of the macro's poll closure interpreted with the future's answer fixed
+    # to None) and on the paths of the arm's handler run on it - not on how the arm is spelled (`x = fut => match x { None => break,
+    # .. }`, `let Some(x) = x else { break }`, an `if let` with the exit in the `else`): the answer must be handed to the handler,
+    # and every path of the handler on it must leave the loop.  A refutable branch pattern that does not match None
+    # (`Some(x) = fut => ..`) means the macro swallows the answer: it switches the branch off for this call and goes on polling the
+    # others; the loop is left only through `else`, which runs only when every branch is switched off in the same call.
+    EXITS = {'val': 'falls out of the arm', 'cont': '`continue`s', 'loop': 'stays in an inner loop', 'div': 'panics'}
+    def ended_source_ends_loop(role, rule_delivered, rule_exit, what, consequence):
+        r = driver.answer_fate(C, role, driver.NONE)
+        a = C.arms[role]
+        ctx.add(rule_delivered, role, loc(a['body']), not r['unread'],
+                'what the select! of the driver loop does with the answer None of the %s branch could not be read off the macro\'s expansion (%d path(s) of its poll code end in neither `return Ready(Out::_n(..))` nor `continue`)' % (role, len(r['unread'])))
+        if r['consumed']:
+            ctx.fail(rule_delivered, role + '|None', loc(a['body']),
+                     '%s (its future answers None) the select! of the driver loop does not hand that answer to the %s arm: the arm\'s pattern does not match None, so the macro only switches '
+                     'the branch off for this call of select! and goes on polling the other branches; %s - the loop is not left, the driver polls the ended source again on every turn and %s'
+                     % (what, role, driver.why_not_left(C, role), consequence))
+        else:
+            ctx.add(rule_delivered, role + '|None', loc(a['body']), bool(r['delivered']), 'no path of the %s branch\'s poll code hands the answer None to the arm' % role)
+        for o in r['handler'] or []:
+            ctx.add(rule_exit, '%s|%s' % (role, o.kind), loc(a['body']), driver.leaves_driver_loop(C, o, main_loop),
+                    '%s the %s arm %s instead of leaving the driver loop: %s' % (what, role, EXITS.get(o.kind, o.kind), consequence))
+        return r
     for role in ('request', 'misc'):
-        a = C.arms.get(role)
-        if a is None:
+        if C.arms.get(role) is None:
             continue
-        b = a['bindings'][0][0]
-        ifs = [n for n, c in walk(a['body']) if n['k'] == 'If' and n['cond']['k'] == 'LetExpr' and hirq.local_of(n['cond']['init']) == b and hirq.pat_variant(n['cond']['pat']) == 'Some']
-        ms = [n for n, c in walk(a['body']) if n['k'] == 'Match' and hirq.local_of(n['scrut']) == b]
-        ok = False
-        for i in ifs:
-            ok = ok or leaves_loop(i.get('els'))
-        for m in ms:
-            for arm in m['arms']:
-                if hirq.pat_variant(arm['pat']) == 'None':
-                    ok = ok or leaves_loop(arm['body'])
-        ctx.add('L2.closed-channel-leaves-loop', role, loc(a['body']), ok,
-                'when the %s channel is closed (all handles dropped) the driver loop does not end' % role)
+        ended_source_ends_loop(role, 'L2.closed-channel-leaves-loop', 'L2.closed-channel-leaves-loop', 'when the %s channel is closed (all handles dropped)' % role,
+                               'the driver never ends')
     # the scrub arm ignores a closed channel; that is only harmless while select! picks its starting branch at random
     rng = [n for n, c in walk(L.root) if n['k'] == 'Call' and (callee_of(n) or '') == 'tokio::macros::support::thread_rng_n']
-    sb = C.arms['scrub']['bindings'][0][0]
-    scrub_none_leaves = any(n['k'] == 'If' and n['cond']['k'] == 'LetExpr' and hirq.local_of(n['cond']['init']) == sb and leaves_loop(n.get('els')) for n, c in walk(C.arms['scrub']['body']))
+    _sf = driver.answer_fate(C, 'scrub', driver.NONE)
+    scrub_none_leaves = bool(_sf['handler']) and not _sf['consumed'] and not _sf['unread'] and all(driver.leaves_driver_loop(C, o, main_loop) for o in _sf['handler'])
     ctx.add('L2.closed-scrub-channel-cannot-starve-exit', 'select fairness', loc(main_loop), bool(rng) or scrub_none_leaves,
             'the select! is biased and its first-polled arm (ID scrub) is permanently ready with None once all handles are dropped: the arms that end the loop are never reached and the driver spins forever')
     # an arm that ends the loop must always be polled: a `, if <cond>` precondition on it switches the exit off
@@ -154,30 +159,40 @@ def run(ctx):
         ctx.add('L2.exit-arm-always-polled', role, loc(a['body']), ok,
                 'the %s arm of the driver loop has a precondition (`, if ...`): while it is false the driver no longer notices %s, so pending operations wait forever' % (
                     role, 'that the last handle was dropped' if role == 'request' else 'end of stream, a reset or an undecodable frame'))
+    # L11 "when the server closes the connection ... every pending operation and stream returns an error": the end of the transport's
+    # stream (`stream.next()` answering None) reaches an exit of the loop - the answer is handed to the response arm and every path
+    # of the arm on it leaves the loop (which drops the driver, and with it every reply sender)
     resp = C.arms['response']
-    rb = resp['bindings'][0][0]
-    for m in [n for n, c in walk(resp['body']) if n['k'] == 'Match' and hirq.local_of(n['scrut']) == rb]:
-        for arm in m['arms']:
-            pv = hirq.pat_variant(arm['pat'])
-            inner = arm['pat']['pats'][0] if arm['pat'].get('k') == 'PTupleStruct' and arm['pat']['pats'] else None
-            if pv == 'None':
-                ctx.add('L2.eof-leaves-loop', 'response', loc(arm['body']), leaves_loop(arm['body']), 'end of the byte stream does not end the driver loop')
-            if pv == 'Some' and inner is not None and hirq.pat_variant(inner) == 'Err':
-                rets = [x for x, _ in walk(arm['body']) if x['k'] == 'Ret' and x.get('e') and x['e']['k'] == 'Call' and hirq.short_def(x['e']['f'].get('def', '')) == 'Err']
-                ctx.add('L2.stream-error-returns-err', 'response', loc(arm['body']), bool(rets) and hirq.diverges(arm['body']), 'a read/decode error does not make the driver return Err')
-    wire = [(n, c) for n, c in walk(C.arms['request']['body']) if n['k'] == 'MethodCall' and n['name'] == 'send' and 'Framed<' in hirq.strip_refs(n['recv'].get('ty', ''))]
-    for n, c in wire:
-        # the awaited result is tested for Err and that branch returns Err
-        ok = False
-        for a, role in reversed(c):
-            if a['k'] == 'LetExpr' and hirq.pat_variant(a['pat']) == 'Err':
-                iff = [x for x, r in c if x['k'] == 'If' and x['cond'] is a]
-                if iff:
-                    ok = leaves_loop(iff[0]['then']) and any(x['k'] == 'Ret' for x, _ in walk(iff[0]['then']))
-            if a['k'] == 'Try':
-                ok = True
-        ctx.add('L2.write-error-returns-err', 'request', loc(n), ok, 'a failed socket write does not end the driver with Err')
-    ctx.floor('L2', 'wire sends', len(wire), 1)
+    r_none = ended_source_ends_loop('response', 'L11.end-of-stream-reaches-the-arm', 'L2.eof-leaves-loop', 'when the server closes the connection (the transport\'s stream ends)',
+                                    'operations and search streams still waiting for a response hang instead of failing')
+    ctx.floor('L11', 'paths of the response arm\'s poll code and handler for the end of the stream', len(r_none['delivered']) + len(r_none['consumed']) + len(r_none['handler'] or []), 1)
+    # a read / decode error (the stream answers Some(Err(e))) is handed to the arm as well, and every path of the arm on it returns Err
+    SOME_ERR = ('ctor', 'Some', (('ctor', 'Err', (('param', 'E'),)),))
+    r_err = driver.answer_fate(C, 'response', SOME_ERR)
+    ctx.add('L2.stream-error-returns-err', 'response|delivered', loc(resp['body']), bool(r_err['delivered']) and not r_err['consumed'] and not r_err['unread'],
+            'a read / decode error of the transport (Some(Err(e))) is not handed to the response arm: %s' % (
+                'the arm\'s pattern does not match it, the select! switches the branch off and the error is lost' if r_err['consumed'] else 'the macro\'s expansion could not be read'))
+    for o in r_err['handler'] or []:
+        ctx.add('L2.stream-error-returns-err', 'response|%s' % o.kind, loc(resp['body']), o.kind == 'ret' and sem.is_err_result(o.val),
+                'a read/decode error does not make the driver return Err (the response arm %s)' % (EXITS.get(o.kind, 'returns %s' % absx.fmt(o.val)[:40] if o.kind == 'ret' else o.kind)))
+    # a failed socket write ends the driver with Err: on every path of the request arm on which the awaited write of the request to
+    # the transport is known to have failed
+    n_wire = 0
+    seen_wire = set()
+    for o in driver.arm_paths(C, 'request')[0]:
+        for i, cal, args, node in sem.calls(o, lambda c: c.rsplit('::', 1)[-1] == 'send'):
+            if 'Framed<' not in sem.recv_ty(node):
+                continue
+            seen_wire.add(node.get('id'))
+            w = ('call', cal, tuple(args), node.get('id'))
+            if sem.failed(o, lambda v, w=w: v == ('await', w)):
+                n_wire += 1
+                ctx.add('L2.write-error-returns-err', 'request|%s' % o.kind, loc(node), o.kind == 'ret' and sem.is_err_result(o.val), 'a failed socket write does not end the driver with Err')
+    wire = [n for n, c in walk(C.arms['request']['body']) if n['k'] == 'MethodCall' and n['name'] == 'send' and 'Framed<' in hirq.strip_refs(n['recv'].get('ty', ''))]
+    for n in wire:
+        if n.get('id') not in seen_wire:
+            ctx.fail('L2.write-error-returns-err', 'request', loc(n), 'a write to the transport in the request arm lies on no enumerated path of the arm: it was not analysed')
+    ctx.floor('L2', 'paths of the request arm on which the socket write failed', n_wire, 1)
 
     # ---- L2 the driver never waits, inside an arm, for anything but its own transport.  While an arm's body runs nothing else of
     # the loop does: the socket is not read, requests are not taken, end of stream and a closed request channel go unnoticed.  The
